@@ -302,6 +302,7 @@ class Evaluator:
         self.trace: List[ast.AST] = []      # statements executed (for coverage / reporting)
         # when set, `name = <unsupported expr>` binds an opaque Sym(name) and records the defining expression
         self.opaque_ok = False
+        self.attr_fallback = None           # callable(dotted) -> value | None for unknown dotted attribute reads
         self.opaque: Dict[str, ast.AST] = {}
 
     # ------------------------------------------------------------------ expressions
@@ -329,6 +330,54 @@ class Evaluator:
 
     def _e_Set(self, n):
         return {self.ev(e) for e in n.elts}
+
+    def _e_Dict(self, n):
+        out = {}
+        for k, v in zip(n.keys, n.values):
+            if k is None:
+                raise Unsupported("dict unpacking", n)
+            out[self.ev(k)] = self.ev(v)
+        return out
+
+    def _comp(self, generators, emit):
+        def rec(i):
+            if i == len(generators):
+                emit()
+                return
+            g = generators[i]
+            it = self.ev(g.iter)
+            if isinstance(it, dict):
+                it = list(it)
+            if isinstance(it, (set, frozenset)):
+                it = sorted(it, key=repr)
+            if not isinstance(it, (list, tuple)):
+                raise Unsupported("comprehension over abstract iterable", g.iter)
+            for v in it:
+                self.store(g.target, "=", v, g.iter)
+                if all(self.truth(self.ev(c), c) for c in g.ifs):
+                    rec(i + 1)
+        rec(0)
+
+    def _e_ListComp(self, n):
+        out = []
+        self._comp(n.generators, lambda: out.append(self.ev(n.elt)))
+        return out
+
+    def _e_GeneratorExp(self, n):
+        return self._e_ListComp(n)
+
+    def _e_SetComp(self, n):
+        out = set()
+        self._comp(n.generators, lambda: out.add(self.ev(n.elt)))
+        return out
+
+    def _e_DictComp(self, n):
+        out = {}
+
+        def emit():
+            out[self.ev(n.key)] = self.ev(n.value)
+        self._comp(n.generators, emit)
+        return out
 
     def _e_JoinedStr(self, n):
         out = []
@@ -431,6 +480,10 @@ class Evaluator:
         d = _dotted(n)
         if d is not None and d in self.env:
             return self.env[d]
+        if d is not None and self.attr_fallback is not None:
+            v = self.attr_fallback(d)
+            if v is not None:
+                return v
         base = self.ev(n.value)
         if isinstance(base, dict) and n.attr in base:
             return base[n.attr]
@@ -443,6 +496,10 @@ class Evaluator:
             return self.funcs[name](self, n)
         if isinstance(n.func, ast.Attribute) and ("." + n.func.attr) in self.funcs:
             return self.funcs["." + n.func.attr](self, n)
+        if isinstance(n.func, ast.Attribute):
+            handled, val = self._container_call(n)
+            if handled:
+                return val
         if name in ("len", "min", "max", "abs", "int", "float", "range", "str", "bool", "set", "list", "tuple",
                     "sorted", "enumerate", "isinstance"):
             args = [self.ev(a) for a in n.args]
@@ -635,6 +692,31 @@ class Evaluator:
             return
         raise Unsupported(f"statement {type(st).__name__}", st)
 
+    def _container_call(self, call: ast.Call):
+        """Method call on a concrete python container held in the abstract environment."""
+        try:
+            base = self.ev(call.func.value)
+        except Unsupported:
+            return False, None
+        attr = call.func.attr
+        if isinstance(base, (list, set, dict, str, tuple)) and not call.keywords:
+            args = [self.ev(a) for a in call.args]
+            table = {
+                list: ("append", "extend", "clear", "copy", "pop", "index", "count", "insert"),
+                set: ("add", "update", "clear", "copy", "intersection", "union", "difference", "discard", "remove"),
+                dict: ("get", "items", "keys", "values", "clear", "copy", "pop", "update"),
+                str: ("split", "strip", "replace", "startswith", "endswith", "lower", "upper", "isdigit", "find",
+                      "rfind", "join"),
+                tuple: ("index", "count"),
+            }
+            for ty, names in table.items():
+                if isinstance(base, ty) and attr in names:
+                    r = getattr(base, attr)(*args)
+                    if attr in ("items", "keys", "values"):
+                        r = list(r)
+                    return True, r
+        return False, None
+
     def _rhs(self, target, value):
         if self.opaque_ok and isinstance(target, ast.Name):
             try:
@@ -654,10 +736,8 @@ class Evaluator:
             if ("." + call.func.attr) in self.funcs:
                 self.funcs["." + call.func.attr](self, call)
                 return
-            # method call on a python list held in env (e.g. my_values.append(x)): execute on the abstract list
-            if isinstance(call.func.value, ast.Name) and isinstance(self.env.get(call.func.value.id), list) \
-                    and call.func.attr == "append" and len(call.args) == 1:
-                self.env[call.func.value.id].append(self.ev(call.args[0]))
+            handled, _ = self._container_call(call)
+            if handled:
                 return
             key = self._alias_key(call.func.value)
             args = tuple(self.ev(a) for a in call.args)
